@@ -37,7 +37,8 @@ class CConversionBoundaryCondition:
         d_boundCond = OrderedDict()
         for k, v in self.dic_surf_mcnp.items():
             if v[0][0].boundary_cond != '':
-                if len(v) > 1:
+                # single-facet macrobodies (SPH, ELL) are macrobodies, too
+                if len(v) > 1 or getattr(v[0][0], 'from_macrobody', False):
                     msg = ('Boundary conditions on macrobodies are not '
                            'supported yet.')
                     raise NotImplementedError(msg)
